@@ -14,7 +14,8 @@ RULE = (
     "finish - start is compared with the runtime of the strategy given to Worker.place_task, Worker.remove_task "
     "time and the TASK_FINISHED row with the finish time; every deferral (TASK_NOT_READY / WORKER_NOT_READY) must be "
     "justified by the shadow history / shadow ledger. Non-trivial = some microsecond with >= 3 different event kinds "
-    "among finish/release/placement/scheduler start/finish, or a deferral; distinct by spec hash."
+    "among finish/release/placement/scheduler start/finish, or a deferral; distinct by spec hash. scripted_ms_sim: the generated plan-ahead "
+    "policy on worlds whose strategies may state their runtime in milliseconds (remaining times of different units meet in the main loop)."
 )
 ASSUMPTIONS = ["scheduler runtime 0", "no preemption", "which of two equal-priority events goes first is not asserted"]
 
